@@ -30,6 +30,9 @@ CHECKS = {
  "C09": dict(engine="treesim", technique="deterministic simulation: same tree-forest machine, op mix dominated by calls documented not to mutate (sql x 33 dialects x options, optimize, qualify/annotate of a copy, diff, lineage, transform/builders with copy=True, expand, replace_tables, replace_placeholders, operators, copy/deepcopy) interleaved with edits; strict identity fingerprint + SQL of every argument before/after, also when the call raises; injected stack exhaustion, callback aborts, ParseErrors; ddmin replay",
    level_text="Seeded exploration (9.6k quick / 160k thorough histories) in which every non-mutating call is bracketed by a strict fingerprint (node identities, parent/arg_key/index, scalars, comments, types, meta) and the base-dialect SQL of each argument tree, including when the call fails with UnsupportedError/OptimizeError/ParseError or with a RecursionError injected at a PRNG-chosen stack depth; copies must be equal, structurally identical and node-disjoint, and later edits of either side must leave the other's fingerprint unchanged (frame condition). Evidence, not proof.",
    design_ref="DESIGN.md 3.5", note="Trusts CPython and the harness; trees come from the corpus (fixtures + ~12k dialect statements + built-ins), not from an exhaustive grammar; cache state alone is not part of the C09 fingerprint (stale caches are C08's I3)."),
+ "C15": dict(engine="histsim", technique="deterministic simulation of process lifetimes: fork-server templates per PYTHONHASHSEED (ASLR off), generated call histories over fresh and reused Tokenizer/Parser/Generator/Dialect/MappingSchema instances from a cold interpreter, with failing earlier steps, injected stack exhaustion, gc and address-space perturbation; oracle = the same call alone in a cold process under two hash seeds; ddmin replay",
+   level_text="Seeded exploration (1.2k quick / 12k thorough process lifetimes of 3-60 calls each, 4 / 32 hash seeds) from a cold interpreter (no dialect or rule module loaded), so dialect import order, metaclass side effects and first-use cache fills are part of the history. Every step is compared byte-for-byte with a reference table computed per call signature ALONE in its own cold child, under PYTHONHASHSEED 0 and 4242 (which must agree). Faults: ParseError/TokenError/UnsupportedError/OptimizeError in earlier steps on components reused afterwards, RecursionError injected at a PRNG-chosen margin, gc.collect/disable, garbage pre-allocation shifting object addresses. Evidence, not proof.",
+   design_ref="DESIGN.md 3.2", note="Exception messages are not compared (classes are); the AST-diff op is excluded as the property excludes it; references and histories share the same code, so a defect that changes every execution identically is invisible (that is C01..C14's subject, not C15's)."),
 }
 
 def main():
